@@ -18,10 +18,37 @@ def operator_op(case, rng):
     db = case.w.db
     r = rng.random()
     nodes = list(db.StorageNode.select())
+    if getattr(case, "multi", False) and rng.random() < (0.3 if getattr(case, "churn", False) else 0.08):
+        r = 0.16       # -> disk swap
     if r < 0.15:
         n = rng.choice(nodes)
         db.StorageNode.update(active=not n.active).where(db.StorageNode.id == n.id).execute()
         return f"node {n.name} active -> {not n.active}"
+    if r < 0.17 and getattr(case, "multi", False):
+        # a disk swap: the active node(s) of a group on one host are deactivated and one - or, wrongly, two - of its spare
+        # nodes on that host are activated
+        cands = []
+        for g in case.groups:
+            for h in ("h1", "h2"):
+                mem = [x for x in nodes if x.group_id == g.id and x.host == h]
+                spare = [x for x in mem if not x.active]
+                if spare and len(mem) > len(spare):
+                    cands.append((g, h, mem, spare))
+        if cands:
+            g, h, mem, spare = rng.choice(cands)
+            k = min(len(spare), rng.choice([1, 1, 2]))
+            on = rng.sample(spare, k)
+            for x in mem:
+                db.StorageNode.update(active=(x in on)).where(db.StorageNode.id == x.id).execute()
+            return f"disk swap in group {g.name} on {h}: now active {[x.name for x in on]}"
+    if r < 0.19 and getattr(case, "multi", False):
+        # a group's disks are swapped: activation of all its nodes re-drawn
+        g = rng.choice(case.groups)
+        members = [x for x in nodes if x.group_id == g.id]
+        flags = [rng.random() < 0.5 for _ in members]
+        for x, fl in zip(members, flags):
+            db.StorageNode.update(active=fl).where(db.StorageNode.id == x.id).execute()
+        return f"group {g.name} reshuffled: " + ",".join(f"{x.name}={'on' if fl else 'off'}" for x, fl in zip(members, flags))
     if r < 0.25:
         n = rng.choice(nodes)
         h = rng.choice(["h1", "h2"])
@@ -53,6 +80,17 @@ def operator_op(case, rng):
             db.ArchiveFileCopy.update(has_file=h, wants_file=wn).where(db.ArchiveFileCopy.id == c.id).execute()
             case.tracked.add((c.node_id, c.file_id))
             return f"copy {c.id} -> {h}/{wn}"
+    if r < 0.66:
+        # a second request for a file already requested into the same group, from another holder of the file
+        pend = list(db.ArchiveFileCopyRequest.select().where(db.ArchiveFileCopyRequest.completed == 0,
+                                                             db.ArchiveFileCopyRequest.cancelled == 0))
+        if pend:
+            r0 = rng.choice(pend)
+            holders = [c.node_id for c in db.ArchiveFileCopy.select().where(db.ArchiveFileCopy.file == r0.file_id,
+                                                                           db.ArchiveFileCopy.has_file != "N")]
+            src = rng.choice(holders) if holders else r0.node_from_id
+            db.ArchiveFileCopyRequest.create(file=r0.file_id, node_from=src, group_to=r0.group_to_id)
+            return f"duplicate sync request file {r0.file_id} node {src}->group {r0.group_to_id}"
     if r < 0.8:
         f = rng.choice(case.files)
         src = rng.choice(case.nodes)
@@ -61,6 +99,8 @@ def operator_op(case, rng):
             c = rng.choice(good)
             f, src = db.ArchiveFile.get(id=c.file_id), db.StorageNode.get(id=c.node_id)
         g = rng.choice([g for g in case.groups if g.id != src.group_id] or case.groups)
+        if getattr(case, "churn", False) and rng.random() < 0.6 and src.group_id != case.groups[0].id:
+            g = case.groups[0]
         db.ArchiveFileCopyRequest.create(file=f, node_from=src, group_to=g)
         return f"sync request file {f.id} {src.name}->{g.name}"
     if r < 0.9:
@@ -77,30 +117,47 @@ def operator_op(case, rng):
     return f"import request {f.acq.name}/{f.name} on {n.name}"
 
 
-def run_history(ctx, e, rng, nsteps, on_step=None):
+def run_history(ctx, e, rng, nsteps, on_step=None, conc=False, churn=False):
     """returns (case, problems07, problems08, log)"""
     import pathlib
-    case = dharness.DWorld(e, rng)
+    case = dharness.DWorld(e, rng, churn=churn)
     db = case.w.db
     case.precompleted = set(r.id for r in db.ArchiveFileCopyRequest.select().where(db.ArchiveFileCopyRequest.completed == 1))
     case.set_tools(rng.choice(["rsync-only", "both", "none"]), "ok")
     p7, p8, log = [], [], []
+    completed_seen = set()
 
     def judge(host, bt, bc, desc):
-        allow_init = None
-        if desc[0] == "task":
-            m = re.match(r'Init Node "(\S+)"', desc[2])
+        allow_init = set()
+        names = [desc[2]] if desc[0] == "task" else list(desc[2]) if desc[0] == "tasks-2-workers" else []
+        for nm in names:
+            m = re.match(r'Init Node "(\S+)"', nm)
             if m:
                 nd = db.StorageNode.get(name=m.group(1))
                 # initialising is licensed by a request *for that node* that was pending when the pass queued the task
                 if nd.id in case.initq.get(host, set()):
-                    allow_init = nd.id
+                    allow_init.add(nd.id)
         for p in case.attribute(host, bt, bc, allow_init=allow_init):
             p7.append((p, list(log[-6:])))
-        if allow_init is not None and case.usable_now(host) >= {allow_init}:
-            case.marker_state[allow_init] = "ok"
+        for nid in allow_init:
+            if nid in case.usable_now(host):
+                case.marker_state[nid] = "ok"
         for p in case.invariants():
             p8.append((p, list(log[-6:])))
+        # "a completed request implies a copy was recorded in its destination group": judged at the step that completes it
+        RQ = db.ArchiveFileCopyRequest
+        for rq in RQ.select().where(RQ.completed == 1):
+            if rq.id in case.precompleted or rq.id in completed_seen:
+                continue
+            completed_seen.add(rq.id)
+            good = (db.ArchiveFileCopy.select().join(db.StorageNode)
+                    .where(db.ArchiveFileCopy.file == rq.file_id, db.StorageNode.group == rq.group_to_id,
+                           db.ArchiveFileCopy.has_file == "Y").count())
+            if good == 0:
+                rows = [(c.node_id, c.has_file, c.wants_file) for c in db.ArchiveFileCopy.select().join(db.StorageNode)
+                        .where(db.ArchiveFileCopy.file == rq.file_id, db.StorageNode.group == rq.group_to_id)]
+                p8.append((f"request {rq.id} was completed by {desc} but no copy of file {rq.file_id} is recorded present in group "
+                           f"{rq.group_to_id} (rows there: {rows})", list(log[-6:])))
         # "a copy recorded removed by the daemon is gone from disk": rows this step turned into has_file='N'
         for cid, row in case.copies().items():
             old = bc.get(cid)
@@ -124,6 +181,50 @@ def run_history(ctx, e, rng, nsteps, on_step=None):
             return
         log.append(f"iterate {host}: usable={sorted(case.view[host])} queued={[t[1] for t in pend][:6]}")
         judge(host, bt, bc, ("iterate", host))
+
+    def post_task(host, name):
+        """bookkeeping of the tracked set after a task ran (mirror of `trackStep`)"""
+        case.note_task(host, name)
+        m = re.match(r"Import (\S+) on (\S+)", name)
+        if m:
+            # importing a file that differs from its existing registration is the operator telling the index something
+            # the daemon has not checked: tracked (DESIGN §4 C08)
+            try:
+                acq, fname = m.group(1).split("/", 1)
+                f = db.ArchiveFile.select().join(db.ArchiveAcq).where(db.ArchiveAcq.name == acq, db.ArchiveFile.name == fname).get()
+                nd = db.StorageNode.get(name=m.group(2))
+                data = case.w.file_on(nd, f)
+                if data is not None and (f.size_b != len(data) or f.md5sum != dharness.worldmod.md5(data)):
+                    case.tracked.add((nd.id, f.id))
+            except Exception:
+                pass
+        m = re.match(r"AFCR#(\d+):", name)
+        if m:
+            rq = db.ArchiveFileCopyRequest.get_or_none(id=int(m.group(1)))
+            if rq is not None and rq.completed:
+                md = re.match(r"AFCR#\d+: \S+ -> (\S+)", name)
+                dest = db.StorageNode.get_or_none(db.StorageNode.name == md.group(1)) if md else None
+                if dest is not None:
+                    src_tracked = (rq.node_from_id, rq.file_id) in case.tracked
+                    sc = db.ArchiveFileCopy.get_or_none(file=rq.file_id, node=rq.node_from_id)
+                    if src_tracked or sc is None or sc.has_file != "Y":
+                        case.tracked.add((dest.id, rq.file_id))
+                    else:
+                        case.tracked.discard((dest.id, rq.file_id))
+
+    def do_concurrent_pass(host):
+        """one update pass, then its tasks run by two workers interleaved at SQL statements (judged as one step)"""
+        do_iterate(host)
+        bt, bc = case.all_trees(), case.copies()
+        ran, schedule, excs = case.concurrent_drain(host, rng, nw=2)
+        log.append(f"tasks {host} [2 workers, schedule {''.join(map(str, schedule[:60]))}]: {ran[:8]}")
+        for x in excs:
+            if "OperationalError" not in x:
+                p8.append(f"a task on {host} raised (2 workers): {x}")
+        for name in ran:
+            post_task(host, name)
+        # with two workers a check and a transfer of the same pass may finish in either order: re-derive taint conservatively
+        judge(host, bt, bc, ("tasks-2-workers", host, ran))
 
     def do_task(host):
         """run one queued task of `host`; returns False when nothing was runnable"""
@@ -153,56 +254,107 @@ def run_history(ctx, e, rng, nsteps, on_step=None):
         if res is None:
             return False
         log.append(f"task {host}: {res[1]}" + (f" [unlink of {os.path.basename(fired[0])} failed with EIO]" if fired else ""))
-        case.note_task(host, res[1])
-        m = re.match(r"Import (\S+) on (\S+)", res[1])
-        if m:
-            # importing a file that differs from its existing registration is the operator telling the index something
-            # the daemon has not checked: tracked (DESIGN §4 C08)
-            try:
-                acq, fname = m.group(1).split("/", 1)
-                f = db.ArchiveFile.select().join(db.ArchiveAcq).where(db.ArchiveAcq.name == acq, db.ArchiveFile.name == fname).get()
-                nd = db.StorageNode.get(name=m.group(2))
-                data = case.w.file_on(nd, f)
-                if data is not None and (f.size_b != len(data) or f.md5sum != dharness.worldmod.md5(data)):
-                    case.tracked.add((nd.id, f.id))
-            except Exception:
-                pass
-        m = re.match(r"AFCR#(\d+):", res[1])
-        if m:
-            rq = db.ArchiveFileCopyRequest.get_or_none(id=int(m.group(1)))
-            if rq is not None and rq.completed:
-                dest = db.StorageNode.get_or_none(db.StorageNode.group == rq.group_to_id)
-                if dest is not None:
-                    src_tracked = (rq.node_from_id, rq.file_id) in case.tracked
-                    sc = db.ArchiveFileCopy.get_or_none(file=rq.file_id, node=rq.node_from_id)
-                    if src_tracked or sc is None or sc.has_file != "Y":
-                        case.tracked.add((dest.id, rq.file_id))
-                    else:
-                        case.tracked.discard((dest.id, rq.file_id))
+        post_task(host, res[1])
         judge(host, bt, bc, ("task", host, res[1]))
         return True
 
-    for si in range(nsteps):
-        r = rng.random()
-        host = rng.choice(case.hosts)
-        if r < 0.28:
-            log.append("op: " + operator_op(case, rng))
-        elif r < 0.48:
-            do_iterate(host)
-        elif r < 0.70:
-            do_task(host)
-        else:
-            # a whole pass of this host's daemon: update, then every queued task one by one (each judged separately)
-            do_iterate(host)
-            for _ in range(40):
-                if not do_task(host):
-                    if case.daemons[host].queue.deferred_size:
-                        q = case.daemons[host].queue
-                        q._deferrals = [(0, *d[1:]) for d in q._deferrals]
-                        continue
-                    break
+    try:
+        for si in range(nsteps):
+            r = rng.random()
+            host = rng.choice(case.hosts)
+            if r < 0.03:
+                case.restart(host)
+                log.append(f"restart of the daemon on {host}")
+            elif r < 0.28:
+                log.append("op: " + operator_op(case, rng))
+            elif r < 0.48:
+                do_iterate(host)
+            elif r < 0.70:
+                do_task(host)
+            elif conc and r < 0.9:
+                do_concurrent_pass(host)
+            else:
+                # a whole pass of this host's daemon: update, then every queued task one by one (each judged separately)
+                do_iterate(host)
+                for _ in range(40):
+                    if not do_task(host):
+                        if case.daemons[host].queue.deferred_size:
+                            q = case.daemons[host].queue
+                            q._deferrals = [(0, *d[1:]) for d in q._deferrals]
+                            continue
+                        break
+    finally:
+        case.close()
     os.environ["PATH"] = "/usr/local/bin:/usr/bin:/bin"
     return case, p7, p8, log
+
+
+def corpus_churn(ctx, e):
+    """scripted disk-swap scenarios, enumerated: a group with three nodes on one host is served by one of them for a pass;
+    then the set of active nodes is changed to every other subset, a request for a file the group lacks is filed before or
+    after the change, and another pass runs (same daemon process, or restarted).  The locality oracle judges every step."""
+    import itertools
+    probs_all = []
+    n = 0
+    for first, after, req_when, restart in itertools.product([0, 1], [(), (0,), (1,), (2,), (0, 1), (1, 2), (0, 1, 2)],
+                                                             ["before", "after"], [False, True]):
+        rng = random.Random(f"churn-{first}-{after}-{req_when}-{restart}")
+        case = dharness.DWorld.__new__(dharness.DWorld)
+        w = worldmod.World(e)
+        db = w.db
+        for m in (db.StorageTransferAction, db.ArchiveFileCopyRequest, db.ArchiveFileImportRequest, db.ArchiveFileCopy,
+                  db.ArchiveFile, db.ArchiveAcq, db.StorageNode, db.StorageGroup):
+            m.delete().execute()
+        import shutil
+        shutil.rmtree(os.path.join(e.tmp, "roots"), ignore_errors=True)
+        g1, g2 = w.group("g1"), w.group("g2")
+        ds = [w.node(f"d{k}", g1, host="h1", active=(k == first)) for k in range(3)]
+        src = w.node("src", g2, host="h1")
+        acq = w.acq("acq")
+        f1, f2 = w.file(acq, "one.dat", b"one"), w.file(acq, "two.dat", b"two")
+        w.copy(f1, src, has="Y")
+        w.copy(f2, src, has="Y")
+        w.req(f1, src, g1)
+        case.env, case.rng, case.w = e, rng, w
+        case.hosts = ["h1"]
+        case.daemons = {"h1": (worldmod.PersistentDaemon if dharness.verif_persistent(e) else worldmod.Daemon)(e, "h1")}
+        case.marker_state = {x.id: "ok" for x in ds + [src]}
+        case.tracked, case.view, case.initq = set(), {}, {}
+        case.nodes, case.groups, case.files = ds + [src], [g1, g2], [f1, f2]
+        case.rich = case.multi = case.churn = True
+        case.set_tools("none", "ok")
+        log = []
+        try:
+            def step(label, fn):
+                bt, bc = case.all_trees(), case.copies()
+                r = fn()
+                log.append(f"{label}: {r if not isinstance(r, list) else [t[1] for t in r]}")
+                for p in case.attribute("h1", bt, bc):
+                    probs_all.append((p, list(log)))
+            step("pass 1", lambda: case.iterate("h1"))
+            step("tasks 1", lambda: case.drain("h1"))
+            if req_when == "before":
+                w.req(f2, src, g1)
+            for k, x in enumerate(ds):
+                db.StorageNode.update(active=(k in after)).where(db.StorageNode.id == x.id).execute()
+            log.append(f"operator: active nodes of g1 now {[ds[k].name for k in after]}")
+            if req_when == "after":
+                w.req(f2, src, g1)
+            if restart:
+                case.restart("h1")
+                log.append("daemon restarted")
+            step("pass 2", lambda: case.iterate("h1"))
+            step("tasks 2", lambda: case.drain("h1"))
+            step("pass 3", lambda: case.iterate("h1"))
+            step("tasks 3", lambda: case.drain("h1"))
+        finally:
+            case.close()
+            os.environ["PATH"] = "/usr/local/bin:/usr/bin:/bin"
+        n += 1
+        ctx.case(("churn", first, after, req_when, restart), nontrivial=True,
+                 sample={"scenario": log} if n == 11 else None)
+        ctx.count("churn-scenarios")
+    return probs_all
 
 
 def compare_iterate(ctx, e, rng, n):
@@ -306,12 +458,14 @@ def run(ctx):
     ok = common.proof_stage(ctx, MODULE)
     rng = ctx.rng
     nh = 100 if ctx.quick() else 2500
-    with envmod.Env() as e:
+    with envmod.Env(dbfile=True) as e:     # file database: persistent daemon loops and two-worker passes need threads
+        for p, hist in corpus_churn(ctx, e):
+            ctx.violation("locality:churn:" + p[:40].replace(" ", "_"), p, {"kind": "churn-scenario", "steps": hist})
         compare_iterate(ctx, e, rng, 200 if ctx.quick() else 4000)
         for i in range(nh):
             hseed = f"{ctx.prop}-{ctx.seed}-h{i}"
             hr = random.Random(hseed)
-            case, p7, p8, log = run_history(ctx, e, hr, hr.randint(8, 30))
+            case, p7, p8, log = run_history(ctx, e, hr, hr.randint(8, 30), conc=True)
             ctx.case(tuple(log), nontrivial=len(log) > 5, sample={"history": log[:25]} if i == 0 else None)
             ctx.count("history:steps", len(log))
             for (p, ctxlog) in p7:
@@ -333,9 +487,9 @@ def replay(ctx, path):
     print(json.dumps({k: d[k] for k in d if k != "history"}, indent=1)[:3000])
     if "hseed" not in d:
         return 1
-    with envmod.Env() as e:
+    with envmod.Env(dbfile=True) as e:
         hr = random.Random(d["hseed"])
-        case, p7, p8, log = run_history(ctx, e, hr, hr.randint(8, 30))
+        case, p7, p8, log = run_history(ctx, e, hr, hr.randint(8, 30), conc=True)
     for l in log:
         print("  ", l[:200])
     for p, _ in p7:
